@@ -12,6 +12,8 @@ import (
 	"crypto/sha1"
 	"encoding/hex"
 	"fmt"
+	"os"
+	"path/filepath"
 	"regexp"
 	"sort"
 	"strings"
@@ -28,6 +30,8 @@ type ddEngine struct {
 	stats  map[string]int
 	stepNo int
 	names  []string
+	soft   []any
+	stop   bool
 }
 
 func spell(n string, sp int) string {
@@ -251,15 +255,24 @@ func runDropDB(c map[string]any) common.Result {
 	}
 	e.fps[1] = real
 	_ = first
+	truncated := -1
 	for i, sv := range steps {
 		e.stepNo = i
 		st := sv.(map[string]any)
 		if f := e.step(st); f != nil {
 			return f
 		}
+		if e.stop {
+			truncated = i
+			break
+		}
 		e.stats[st["a"].(string)+":"+st["res"].(string)]++
 	}
-	return common.Result{"ok": true, "evals": e.evals, "stats": e.stats}
+	res := common.Result{"ok": true, "evals": e.evals, "stats": e.stats, "truncated": truncated}
+	if len(e.soft) > 0 {
+		res["soft"] = e.soft
+	}
+	return res
 }
 
 func (e *ddEngine) step(st map[string]any) common.Result {
@@ -310,8 +323,32 @@ func (e *ddEngine) step(st map[string]any) common.Result {
 			res = "err:?" + err.Error()
 		}
 	}
+	if a == "Undrop" && expRes == "ok" && res == "exists" {
+		// candidate known finding: nothing live has that name, but a stray directory <name>/.dolt holding ONLY the statistics
+		// store has re-appeared in the server directory after the drop and validateUndropDatabase takes it for a database
+		exact := spell(n, common.Int(amap(amap(amap(st["exp"])["live"])[n])["sp"]))
+		if ents, derr := os.ReadDir(filepath.Join(e.srv.Dir, exact, ".dolt")); derr == nil && len(ents) == 1 && ents[0].Name() == "stats" {
+			e.soft = append(e.soft, common.Fail(e.stepNo, a, "stray-stats-directory-blocks-undrop", "restored", err.Error()))
+			e.stop = true
+			return nil
+		}
+	}
+	if a == "CreateDB" && expRes == "ok" && err != nil && strings.Contains(err.Error(), "incomplete database directory") {
+		// same candidate known finding: the stray statistics directory of a database dropped earlier blocks CREATE DATABASE
+		for _, cand := range []string{n, strings.ToUpper(n)} {
+			if ents, derr := os.ReadDir(filepath.Join(e.srv.Dir, cand, ".dolt")); derr == nil && len(ents) == 1 && ents[0].Name() == "stats" {
+				e.soft = append(e.soft, common.Fail(e.stepNo, a, "stray-stats-directory-blocks-create", "created", err.Error()))
+				e.stop = true
+				return nil
+			}
+		}
+	}
 	if res != expRes {
-		return e.fail(a, "outcome", expRes, res)
+		msg := ""
+		if err != nil {
+			msg = ": " + err.Error()
+		}
+		return e.fail(a, "outcome", expRes, res+msg)
 	}
 	e.evals++
 	return e.compare(a, amap(st["exp"]))
